@@ -64,6 +64,7 @@ type Node struct {
 	Name   string // group name (printing)
 	Behind bool
 	F      int
+	Sub    *Node // Class only: subtracted class ([base-[sub]])
 	// OptOn/OptOff: for Grp nodes printed as (?imsnx-imsnx:...)
 	OptOn, OptOff string
 }
@@ -106,6 +107,11 @@ func (n *Node) sexpr(sb *strings.Builder) {
 			} else {
 				fmt.Fprintf(sb, " (r %d %d)", it.Lo, it.Hi)
 			}
+		}
+		if n.Sub != nil {
+			sb.WriteString(" (sub ")
+			n.Sub.sexpr(sb)
+			sb.WriteString(")")
 		}
 		sb.WriteString(")")
 	case Cat:
@@ -242,7 +248,7 @@ func (n *Node) print(sb *strings.Builder, x bool, prec int) {
 	case Dot:
 		sb.WriteString(".")
 	case Class:
-		if len(n.Items) == 1 && n.Items[0].Cat != "" && !n.Neg {
+		if len(n.Items) == 1 && n.Items[0].Cat != "" && !n.Neg && n.Sub == nil {
 			sb.WriteString(catText(n.Items[0]))
 			return
 		}
@@ -258,6 +264,10 @@ func (n *Node) print(sb *strings.Builder, x bool, prec int) {
 			} else {
 				sb.WriteString(escClassCh(it.Lo) + "-" + escClassCh(it.Hi))
 			}
+		}
+		if n.Sub != nil {
+			sb.WriteString("-")
+			n.Sub.print(sb, x, 2)
 		}
 		sb.WriteString("]")
 	case Cat:
@@ -397,6 +407,9 @@ func (n *Node) Walk(f func(*Node)) {
 	for _, k := range n.Kids {
 		k.Walk(f)
 	}
+	if n.Sub != nil {
+		n.Sub.Walk(f)
+	}
 }
 
 // Clone deep-copies the AST.
@@ -406,6 +419,9 @@ func (n *Node) Clone() *Node {
 	c.Kids = make([]*Node, len(n.Kids))
 	for i, k := range n.Kids {
 		c.Kids[i] = k.Clone()
+	}
+	if n.Sub != nil {
+		c.Sub = n.Sub.Clone()
 	}
 	return &c
 }
